@@ -142,6 +142,20 @@ theorem PoseSE3_add_sub_cancel (p q : Fin 7 → ℝ) (hq : Unit4 q) :
   · se3_unfold <;> linear_combination (p 5) * hq
   · se3_unfold <;> linear_combination (p 6) * hq
 
+/-- `q ⊕ (p ⊖ q) = p` (unit `q`) -/
+theorem PoseSE3_add_sub_cancel_left (p q : Fin 7 → ℝ) (hq : Unit4 q) :
+    PoseSE3.add q (PoseSE3.sub p q) = p := by
+  try unfold Unit4 at *
+  funext i
+  fin_cases i
+  · se3_unfold <;> linear_combination (4*p 0*q 4^2 + 4*p 0*q 5^2 - 4*p 1*q 3*q 4 - 4*p 2*q 3*q 5 - 4*q 0*q 4^2 - 4*q 0*q 5^2 + 4*q 1*q 3*q 4 + 4*q 2*q 3*q 5) * hq
+  · se3_unfold <;> linear_combination (-4*p 0*q 3*q 4 + 4*p 1*q 3^2 + 4*p 1*q 5^2 - 4*p 2*q 4*q 5 + 4*q 0*q 3*q 4 - 4*q 1*q 3^2 - 4*q 1*q 5^2 + 4*q 2*q 4*q 5) * hq
+  · se3_unfold <;> linear_combination (-4*p 0*q 3*q 5 - 4*p 1*q 4*q 5 + 4*p 2*q 3^2 + 4*p 2*q 4^2 + 4*q 0*q 3*q 5 + 4*q 1*q 4*q 5 - 4*q 2*q 3^2 - 4*q 2*q 4^2) * hq
+  · se3_unfold <;> linear_combination (p 3) * hq
+  · se3_unfold <;> linear_combination (p 4) * hq
+  · se3_unfold <;> linear_combination (p 5) * hq
+  · se3_unfold <;> linear_combination (p 6) * hq
+
 /-- `p ⊖ p = identity` (unit `p`) -/
 theorem PoseSE3_sub_self (p : Fin 7 → ℝ) (hp : Unit4 p) :
     PoseSE3.sub p p = PoseSE3.identity := by
